@@ -200,6 +200,8 @@ def run_case(case, seed=0, replay_dir=None, known=None):
 
         def interp(inp):
             it = jx.Interp()
+            if hasattr(case, "prepare_interp"):
+                case.prepare_interp(it, inp)
             outs = it.run(closed, [inp[k] for k in names])
             return jax.tree_util.tree_unflatten(treedef, outs), it
 
@@ -213,7 +215,11 @@ def run_case(case, seed=0, replay_dir=None, known=None):
         for k in range(case.n_validate):
             qdom.reset()
             inp = case.inputs(case.conc(seed + 17 * k + 1))
-            o_int, _ = interp(inp)
+            qdom.NUMERIC[0] = True
+            try:
+                o_int, _ = interp(inp)
+            finally:
+                qdom.NUMERIC[0] = False
             o_real = real(inp)
             li = jax.tree_util.tree_leaves(o_int, is_leaf=lambda x: isinstance(x, np.ndarray))
             lr = jax.tree_util.tree_leaves(o_real)
@@ -286,8 +292,13 @@ def run_case(case, seed=0, replay_dir=None, known=None):
         # wrong claim "lhs == 2*rhs" must come back violated (sat): this shows the precondition is satisfiable,
         # the assertion is reached and the compared quantity is not identically zero.
         twins = {"tried": 0, "sat": 0}
-        for label, lhs, rhs in rels[: max(3, len(rels))]:
-            if twins["sat"] >= 2:
+
+        def _size(x):
+            x = Q.lift(x) if not hasattr(x, "c") else x
+            return sum(len(c.d) for c in x.c if isinstance(c, P))
+        cand = sorted(rels, key=lambda t: _size(t[1]) + _size(t[2]))
+        for label, lhs, rhs in cand:
+            if twins["sat"] >= 2 or _size(lhs) + _size(rhs) > 60000:
                 break
             dis, side = qdom.diff_terms(lhs, rhs * 2 if hasattr(rhs, "__mul__") else rhs)
             if not dis:
